@@ -53,7 +53,9 @@ namespace OpenMEEG {
                 const double coeffN = factorN*oriented_mesh.orientation();
                 operators.set_N_block(coeffN,mat);
                 // Second block is nFacesFistLayer*source_mesh.vertices().size()
-                operators.D(coeffN*L,mat);
+                // (a current barrier carries no current unknowns, as in DipSourceMat).
+                if (!mesh.current_barrier())
+                    operators.D(coeffN*L,mat);
             }
         }
 
